@@ -24,7 +24,7 @@ type c15Case struct {
 var c15EditKinds = []string{"EP", "EC", "EL"}
 var c15Policies = []string{"adv", "sub", "eq", "back", "zero"} // sub: the mtime advances by a millisecond only (same second, usually the same length)
 var c15Other = []string{"TP", "TC", "TL", "TS", "TB", "IP", "IC", "FP", "BP", "FC", "FL"} // F*: front-matter-only edit, BP: body-only edit (mtime advances)
-var c15Renders = []string{"R1", "R2", "R3", "R4", "R5", "R6"} // R5: Vue.RenderFragment of the page, R6: RenderString of a template that includes the component
+var c15Renders = []string{"R1", "R2", "R3", "R4", "R5", "R6", "R7"} // R7: Vue.Render of the page without any caller data // R5: Vue.RenderFragment of the page, R6: RenderString of a template that includes the component
 
 func c15Alphabet() []string {
 	var a []string
@@ -73,7 +73,7 @@ func init() {
 
 func (p *c15) ID() string { return "C15" }
 func (p *c15) Rule() string {
-	return "histories over a 32-symbol alphabet {edit page/component/layout x mtime policy (advance by a second, advance by a millisecond, equal, backwards, zero), front-matter-only and body-only edits, delete/recreate page/component/layout, create/delete a layout next to the page that shadows layouts/lay.vuego, delete/recreate the default layouts/base.vuego, make page/component invalid (bad YAML), render the page via Load().Render / RenderFile / Vue.Render / Vue.RenderFragment, render a second page that names no layout, render a string template that includes the component} on a page with front-matter + include + layout + a named slot template that the layout consumes; exhaustive for length <=3 (quick) / <=4 (thorough) each followed by the six renders, plus seeded histories of length 6-20; after every render step the long-lived engine's (bytes, error-ness) is compared with a fresh engine; cache hit/miss/store hook counts prove which comparisons were answered from the cache; non-trivial = history containing at least one edit followed by a render; distinct by the op list"
+	return "histories over a 33-symbol alphabet {edit page/component/layout x mtime policy (advance by a second, advance by a millisecond, equal, backwards, zero), front-matter-only and body-only edits, delete/recreate page/component/layout, create/delete a layout next to the page that shadows layouts/lay.vuego, delete/recreate the default layouts/base.vuego, make page/component invalid (bad YAML), render the page via Load().Render / RenderFile / Vue.Render (with and without caller data; the page reads a variable before a top-level <template> assigns it) / Vue.RenderFragment, render a second page that names no layout, render a string template that includes the component} on a page with front-matter + include + layout + a named slot template that the layout consumes; exhaustive for length <=3 (quick) / <=4 (thorough) each followed by eight renders, plus seeded histories of length 6-20; after every render step the long-lived engine's (bytes, error-ness) is compared with a fresh engine; cache hit/miss/store hook counts prove which comparisons were answered from the cache; non-trivial = history containing at least one edit followed by a render; distinct by the op list"
 }
 
 func (p *c15) exh(ctx core.Ctx) int {
@@ -103,7 +103,7 @@ func (p *c15) Gen(ctx core.Ctx, i int) any {
 			ops[k] = p.alpha[i%n]
 			i /= n
 		}
-		return c15Case{Ops: append(ops, "R1", "R5", "R2", "R6", "R3", "R4")}
+		return c15Case{Ops: append(ops, "R7", "R1", "R5", "R2", "R6", "R3", "R7", "R4")}
 	}
 	r := core.NewRNG(ctx.Seed, 0xC15, uint64(i))
 	var ops []string
@@ -114,7 +114,7 @@ func (p *c15) Gen(ctx core.Ctx, i int) any {
 			ops = append(ops, core.Pick(r, p.alpha))
 		}
 	}
-	return c15Case{Ops: append(ops, "R6", "R3", "R5", "R1", "R4", "R2")}
+	return c15Case{Ops: append(ops, "R6", "R7", "R3", "R5", "R1", "R4", "R7", "R2")}
 }
 
 func (p *c15) Decode(raw json.RawMessage) (any, error) { return core.JSONDecode[c15Case](raw) }
@@ -176,7 +176,7 @@ func c15Content(file string, fv, v int, valid bool) string {
 		if !valid {
 			return fmt.Sprintf("---\n: : [bad %d\n---\n<p>x</p>", v)
 		}
-		return fmt.Sprintf("---\nlayout: lay\nfm: F%d\n---\n<template #side><i data-ps=\"P%d\">side</i></template><main data-p=\"P%d\">{{ fm }} <template include=\"c.vuego\"></template></main>", fv, v, v)
+		return fmt.Sprintf("---\nlayout: lay\nfm: F%d\n---\n<template #side><i data-ps=\"P%d\">side</i></template><main data-p=\"P%d\">{{ fm }} [{{ seenb }}]<template include=\"c.vuego\"></template></main><template :seenb=\"fm\"></template>", fv, v, v)
 	case c15Comp:
 		if !valid {
 			return fmt.Sprintf("---\n: : [bad %d\n---\n<p>x</p>", v)
@@ -286,6 +286,8 @@ func (e c15Engines) render(kind string) (string, error) {
 		err = e.vue.Render(&b, c15Page, map[string]any{"x": 1})
 	case "R4":
 		err = e.base.Load(c15Page2).Render(bg, &b)
+	case "R7":
+		err = e.vue.Render(&b, c15Page, nil)
 	case "R5":
 		err = e.vue.RenderFragment(&b, c15Page, map[string]any{"x": 1})
 	case "R6":
@@ -331,7 +333,7 @@ func (p *c15) Exec(ctx core.Ctx, cc any) core.Obs {
 			w.write(c15Page, false, "adv")
 		case "IC":
 			w.write(c15Comp, false, "adv")
-		case "R1", "R2", "R3", "R4", "R5", "R6":
+		case "R1", "R2", "R3", "R4", "R5", "R6", "R7":
 			hitsBefore := c15Hits.Load()
 			out, err := long.render(kind)
 			fromCache := c15Hits.Load() > hitsBefore
